@@ -823,11 +823,22 @@ pub fn exits(block: &syn::Block) -> Vec<Exit> {
             syn::Expr::Match(m) => {
                 let sc = tsc(&m.expr);
                 expr(&m.expr, conds, false, out);
+                // guards of earlier catch-all arms (`x if G =>`) are false in a later catch-all arm
+                let mut neg: Vec<String> = vec![];
                 for a in &m.arms {
+                    let catch_all = matches!(&a.pat, syn::Pat::Wild(_)) || matches!(&a.pat, syn::Pat::Ident(i) if i.subpat.is_none() && i.ident.to_string().chars().next().map_or(false, |c| c.is_lowercase()));
                     let mut c = conds.clone();
                     c.push(format!("{}~{}", sc, tsc(&a.pat)));
+                    if catch_all {
+                        for n in &neg {
+                            c.push(format!("!{}", n));
+                        }
+                    }
                     if let Some((_, g)) = &a.guard {
                         c.push(tsc(g));
+                        if catch_all {
+                            neg.push(tsc(g));
+                        }
                     }
                     expr(&a.body, &c, is_result, out);
                 }
